@@ -156,7 +156,7 @@ def gen_layer(r):
 
 
 def gen_store(r):
-    md = tomlw.rnd_table(r, 0 if r.random() < 0.8 else 1)
+    md = tomlw.rnd_table(r, 0 if r.random() < 0.8 else 1) if r.random() < 0.9 else {}      # (an empty store is a store)
     return {"op": "store", "metadata": tomlw.tagged(md)}, md
 
 
